@@ -25,6 +25,9 @@ pub enum Act {
     ConsumeOutput(u16),
     /// select the next stream, only honoured once end-of-stream was reported
     Advance,
+    /// select the next stream (or none after the last) right now, wherever the parser is
+    /// (legal at any time; not generated for C02, whose completeness check needs every byte)
+    ForceAdvance,
 }
 
 #[derive(Clone, Debug, Serialize, Deserialize)]
@@ -178,6 +181,11 @@ pub fn drive_schedule(d: &mut StreamDrv, schedule: &[Act], order: &[u8], truth: 
             Act::Compress => d.compress(truth)?,
             Act::ConsumeOutput(k) => d.consume_output(*k as usize)?,
             Act::Advance => maybe_advance(d, order, truth)?,
+            Act::ForceAdvance => {
+                if d.active().is_some() {
+                    d.advance(order, truth)?;
+                }
+            },
         }
         if d.error.is_some() {
             return Ok(());
@@ -268,7 +276,7 @@ pub fn entry() -> BoxedStrategy<Entry> {
 }
 
 pub fn buf_pick() -> BoxedStrategy<u32> {
-    prop_oneof![3 => Just(0u32), 2 => Just(32u32), 2 => 25u32..=120, 2 => Just(256u32), 2 => Just(8192u32), 1 => Just(70000u32)].boxed()
+    prop_oneof![3 => Just(0u32), 2 => Just(32u32), 2 => 25u32..=120, 2 => Just(256u32), 2 => Just(8192u32), 1 => Just(70000u32), 1 => Just(131072u32), 1 => Just(200000u32)].boxed()
 }
 
 pub fn case_strategy() -> BoxedStrategy<Case> {
